@@ -21,11 +21,17 @@ type worldStats struct {
 	Signatures  map[string]int `json:"distinct_world_signatures"`
 	Samples     []any          `json:"samples"`
 	PanicList   []string       `json:"panic_list"`
+	// tokens whose accessors (Issuer, Audience, Expiration, NotBefore, Proofs) report something else than what was issued
+	AccessorMismatches []string `json:"accessor_mismatches"`
 }
 
+// curStats: where Build() records accessor mismatches (the model is fed from the accessors: they must tell what the token says)
+var curStats *worldStats
+
 func newWorldStats() *worldStats {
-	return &worldStats{ByDepth: map[int]int{}, ByDefect: map[string]int{}, ByDefectPos: map[string]int{},
+	curStats = &worldStats{ByDepth: map[int]int{}, ByDefect: map[string]int{}, ByDefectPos: map[string]int{},
 		ByNDefects: map[int]int{}, Kinds: map[string]int{}, Signatures: map[string]int{}}
+	return curStats
 }
 
 func (s *worldStats) addChain(info chainInfo) {
@@ -74,7 +80,7 @@ func init() {
 		}
 		r := rand.New(rand.NewSource(o.seed))
 		st := newWorldStats()
-		var cases []string
+		var cases, ddCases []string
 		labels := map[int]string{}
 		for i := 0; i < n; i++ {
 			k := chainKnobs{MaxDepth: 5, Defects: []int{0, 0, 1, 1, 1, 2}, Decoys: 0, RSA: true, Resolver: true, Caveats: true}
@@ -92,6 +98,12 @@ func init() {
 				so := sessOpts{Attested: pick(r, []string{"this", "this", "other", "none"}), AttIssuer: pick(r, []string{"authority", "authority", "delegate", "stranger"}),
 					Resource: pick(r, []string{"authority", "authority", "other"}), Window: pick(r, []string{"valid", "valid", "expired"}),
 					Pos: r.Intn(3), Resolver: pick(r, []string{"absent", "absent", "correct", "wrong"}), ParentProof: r.Intn(6), Decoys: r.Intn(3)}
+				if i%50 == 49 {
+					// every proof has the citing issuer as audience — the attestation included: a genuine attestation of exactly
+					// this token, by the authority, in its window, but delegated to somebody else, does not count
+					so = sessOpts{Attested: "this", AttIssuer: "authority", Resource: "authority", Window: "valid", Pos: 1 + r.Intn(2),
+						Resolver: "absent", Decoys: r.Intn(2), AttAudience: "stranger"}
+				}
 				var sl string
 				w, sl = sessionWorld(o.seed, i, so)
 				w.ID = i
@@ -102,15 +114,27 @@ func init() {
 			if label == "" {
 				label = fmt.Sprintf("depth=%d defects=%s", info.Depth, strings.Join(info.Defects, ","))
 			}
+			if i%10 == 7 && w.Kind != "session" {
+				// the capability is declared WITHOUT a derivation rule (NewCapability(..., nil)): resource containment still binds
+				w.NilDerives = true
+				label += " no-derivation-rule"
+			}
 			c, _, err := runAndRender(w, st, label)
 			if err != nil {
 				return err
 			}
 			labels[i] = label
-			cases = append(cases, c)
+			if w.NilDerives {
+				ddCases = append(ddCases, c)
+			} else {
+				cases = append(cases, c)
+			}
 		}
 		shards := 16
 		if err := writeWorldCases(o.out, "cases_C01", cases, shards, "check_worlds"); err != nil {
+			return err
+		}
+		if err := writeWorldCases(o.out, "cases_C01dd", ddCases, 4, "check_worlds_dd"); err != nil {
 			return err
 		}
 		if err := writeJSON(o.out, "labels.json", labels); err != nil {
